@@ -31,12 +31,15 @@ GM = [0.5, 3, None, 7.25]
 RM = [512, 4096, None, 1000]
 
 
-def sample():
+PNE_SPELLINGS = [PNE, ['4.0,1.0', '2.5,0.0', '0.0,0.0', '0,0.0'], ['4.00,1', '2.50,0.00', '0,0', '0.0,0'], ['4,1.0', '2.5,0.', '0,0', '0,0']]
+
+
+def sample(variant=0):
     import FlowCal
     events = [[i % r for r in RES] for i in range(1024)]
-    extra = [('$P3G', '2.0')]
-    lay = dict(datatype='I', bits=[16] * 4, ranges=RES, pne=PNE, events=events, byteord='4,3,2,1', extra=extra)
-    p = os.path.join(scratch(), 'c03.fcs')
+    extra = [('$P3G', ['2.0', '2', '2.00', '2.'][variant])]
+    lay = dict(datatype='I', bits=[16] * 4, ranges=RES, pne=PNE_SPELLINGS[variant], events=events, byteord='4,3,2,1', extra=extra)
+    p = os.path.join(scratch(), 'c03_%d.fcs' % variant)
     if not os.path.exists(p):
         buf, _ = fcsgen.build(lay)
         with open(p, 'wb') as f:
@@ -68,6 +71,8 @@ def cases(tier, seed):
     for S in subsets():
         yield dict(kind='list', S=S, tier=tier)
     yield dict(kind='scalar', tier=tier)
+    for v in range(1, len(PNE_SPELLINGS)):
+        yield dict(kind='spelling', variant=v, tier=tier)
     yield dict(kind='none', tier=tier)
     yield dict(kind='array', tier=tier)
     yield dict(kind='refuse', tier=tier)
@@ -179,6 +184,19 @@ def run_case(c):
                             if okseq:
                                 res.ok('list:k=%d' % k, k > 0)
             res.sample({'channels': spellings(S, tier)[-1], 'override menus': [repr(ATM), repr(GM), repr(RM)]})
+        elif c['kind'] == 'spelling':
+            # the same amplifier settings written with other numeric spellings in $PnE / $PnG
+            d2 = sample(c['variant'])
+            for chans, cols in [(None, [0, 1, 2, 3])] + [(NAMES[j], [j]) for j in range(4)] + [([3, 'CH2', 0], [3, 1, 0])]:
+                what = 'to_rfi(sample with $PnE spelled %r, %r)' % (PNE_SPELLINGS[c['variant']], chans)
+                try:
+                    t = to_rfi(d2, chans)
+                except Exception as e:
+                    res.violation('spelling:raises:%s' % type(e).__name__, '%s raised %s: %s' % (what, type(e).__name__, e), dict(c))
+                    continue
+                if expect_ok(res, 'spelling', what, d2, base, t, {j: law(j, None, None, None) for j in cols}, dict(c)):
+                    res.ok('spelling', True)
+            res.sample({'$PnE spellings': PNE_SPELLINGS[c['variant']]})
         elif c['kind'] == 'scalar':
             for j in range(4):
                 for sp in (j, NAMES[j], j - 4):
